@@ -186,6 +186,13 @@ pub fn raw_entry_op<K: KeyT, V: ValT>(sut: &mut MapSut<K, V>, id: u8, b: RBuild,
                     model.swap_remove(p);
                 }
             }
+            if let RawEntryMut::Occupied(mut o2) = r {
+                chk!(c, o2.key().id() == id && o2.get().tok() == t2, "raw and_replace_entry_with({id}): the returned entry shows ({}, {}), expected the new value {t2}", o2.key().id(), o2.get().tok());
+                o2.get_mut().set_tok(t2 ^ 0x0800_0000);
+                if let Some(p) = p {
+                    model[p].2 = t2 ^ 0x0800_0000;
+                }
+            }
         }
         RAct::OccRemove => {
             if let RawEntryMut::Occupied(o) = e {
@@ -253,6 +260,13 @@ pub fn raw_entry_op<K: KeyT, V: ValT>(sut: &mut MapSut<K, V>, id: u8, b: RBuild,
                         model[p].2 = t2;
                     } else {
                         model.swap_remove(p);
+                    }
+                }
+                if let RawEntryMut::Occupied(mut o2) = r {
+                    chk!(c, o2.key().id() == id && o2.get().tok() == t2, "raw replace_entry_with({id}): the returned entry shows ({}, {}), expected the new value {t2}", o2.key().id(), o2.get().tok());
+                    o2.get_mut().set_tok(t2 ^ 0x0800_0000);
+                    if let Some(p) = p {
+                        model[p].2 = t2 ^ 0x0800_0000;
                     }
                 }
             }
